@@ -215,6 +215,18 @@ class StmtMixin:
             if isinstance(t.slice, ast.Slice):
                 raise Unsupported("slice assignment")
             idx = self.ev(t.slice, env)
+            if not isinstance(base, VRef) and isinstance(base, VMap) and isinstance(t.value, ast.Subscript):
+                # d[a][b] = v where the inner map is held by value inside the outer one: update
+                # the inner map and write it back (d[a] raising KeyError happened in ev above)
+                vd = self.deref(v)
+                if isinstance(v, VRef) and isinstance(vd, (VMap, VList, VSet)):
+                    v = vd
+                if isinstance(idx, VOpt) and not isinstance(base.key, VOpt):
+                    if self.path.branch(idx.isnone):
+                        raise Unsupported("None used as key of a str-keyed map")
+                    idx = idx.val
+                self.assign(t.value, base.put(idx, vals.coerce(v, vals.sel(base.val, vals.key_term(base, idx)))), env)
+                return
             self.setitem(base, idx, v)
         else:
             raise Unsupported(f"assignment target {type(t).__name__}")
@@ -249,6 +261,13 @@ class StmtMixin:
                 if self.path.branch(idx.isnone):
                     raise Unsupported("None used as key of a str-keyed map")
                 idx = idx.val
+            vd = self.deref(v)
+            if isinstance(b.val, VMap) and isinstance(vd, VConstDict) and not vd.items:
+                # d[k] = {} into a map of maps: the empty map of the inner kind
+                inner = vals.sel(b.val, vals.key_term(b, idx))
+                v = VMap(inner.key, z3.K(inner.ksort(), z3.BoolVal(False)), vals.dummy_like(inner.val))
+            elif isinstance(vd, (VMap, VList, VSet)) and isinstance(v, VRef):
+                v = vd  # containers stored in a map are held by value (no aliasing through the map)
             self.set_container(base, b.put(idx, v))
             return
         if isinstance(base, VRef) and isinstance(b, VConstDict):
